@@ -166,6 +166,11 @@ def _discharge_sub(b, bb, a, c):
         why = _known_positive(b, bb, a, rels)
         if why:
             return "pass", why
+        # `if x.is_empty() { .. } else { len(x) - 1 }` (is_empty is the un-overridden default len() == 0, see DEFS/ORDER)
+        if is_call(a, "len") and len(a[3]) == 1:
+            for sb, cond, taken, succ, other in guard.edges_dominating(b, bb):
+                if is_call(cond, "is_empty") and cond[3] == a[3] and not taken:
+                    return "pass", "guarded by !is_empty(%s)" % show(a[3][0])
         # x += 1; x - 1  (same block, the store precedes)
         for st in b.blocks[bb]["st"]:
             if st["s"] == "assign" and st["p"]["pr"]:
@@ -190,6 +195,11 @@ def _discharge_sub(b, bb, a, c):
     txt = "%s - %s" % (show(a, False), show(c, False))
     for fname, frag, reason in DECR_TABLE:
         if b.name == fname and frag in txt:
+            if "inside the loop" in reason or reason.startswith("Bvd: inside the loop"):
+                # the table entry is only valid where it says it is: inside a loop body
+                if not any(bb in body for hdr, body in b.loops()):
+                    return "unmatched", ("`%s` is evaluated outside the loop over the characters/bytes: it underflows for an "
+                                         "empty input (panic with overflow checks)" % txt[:100])
             return "trusted", reason
     return "unmatched", "checked subtraction `%s` is not dominated by a guard implying it cannot underflow" % txt[:140]
 
